@@ -184,6 +184,54 @@ theorem C07_getProof (p : Params) (verify : Nat → Nat → Nat → Bool) (fb : 
     rw [C07_get_serves p fb z x x' hB hs]
     simp [hv]
 
+/-- the resumption invariant on bytes: every record below the stored checkpoint holds its final value (or is zero
+    where the pass writes nothing); what lies at or above the checkpoint is arbitrary - present, absent or torn -/
+def FinalBytes (ws : List (Nat × Nat)) (L : Nat) (st : FileState) : Prop :=
+  ∀ r, r < st.cp → absRec st.data L r = lastWrite ws r
+
+/-- **Resume, on bytes (C10).**  From ANY file image that satisfies the invariant - whatever bytes a crash left at or
+    above the checkpoint - and with any cache lengths in the resumed run, a run that completes leaves the records the
+    uninterrupted pass leaves. -/
+theorem C10_file_resume (ws : List (Nat × Nat)) (L limit : Nat) (win : Nat → Nat) (hL : 0 < L)
+    (hwin : ∀ clen, win clen * L ≤ clen) (hv : ∀ w ∈ ws, w.2 < 256 ^ L ∧ w.2 ≠ 0)
+    (st : FileState) (hf : FinalBytes ws L st) (clens : List Nat) (hfits : Fits L limit win clens st.cp)
+    (hdone : limit ≤ (runBytes ws L limit win clens st).cp) :
+    ∀ r, r < limit → absRec (runBytes ws L limit win clens st).data L r = lastWrite ws r := by
+  intro r hr
+  -- the record-level state the image abstracts to: its own records, its checkpoint
+  let ps : PassState Nat := { table := absRec st.data L, checkpoint := st.cp }
+  have h := runBytes_refines ws L limit win hL hwin hv clens st ps rfl (fun _ _ => rfl) hfits
+  rw [h.2 r (by omega)]
+  exact C07_pass_complete ws limit _ ps (fun pos hp => hf pos hp) (by rw [h.1]; exact hdone) r hr
+
+/-- every image a run passes through satisfies the invariant (so does every crash image: a crash changes nothing below
+    the checkpoint that was synced before it) -/
+theorem C10_file_invariant (ws : List (Nat × Nat)) (L limit : Nat) (win : Nat → Nat) (hL : 0 < L)
+    (hwin : ∀ clen, win clen * L ≤ clen) (hv : ∀ w ∈ ws, w.2 < 256 ^ L ∧ w.2 ≠ 0)
+    (st : FileState) (hf : FinalBytes ws L st) (clens : List Nat) (hfits : Fits L limit win clens st.cp) :
+    FinalBytes ws L (runBytes ws L limit win clens st) := by
+  intro r hr
+  let ps : PassState Nat := { table := absRec st.data L, checkpoint := st.cp }
+  have h := runBytes_refines ws L limit win hL hwin hv clens st ps rfl (fun _ _ => rfl) hfits
+  rw [h.2 r hr]
+  exact final_runWindows ws limit _ ps (fun pos hp => hf pos hp) r (by rw [h.1]; exact hr)
+
+/-- **The whole plot, on bytes (C07).**  Fresh files; pass A over any cache lengths, then pass B - reading table A
+    from the bytes pass A left - over any cache lengths: once both checkpoints have reached the end, entry `z` of
+    map B decodes to what the construction defines, and `Get` returns exactly the stored pair. -/
+theorem C07_file_plot (p : Params) (hbl : 1 ≤ p.bl) (clensA clensB : List Nat)
+    (hfA : Fits (recordSize p.bl) p.N (winA (recordSize p.bl)) clensA 0)
+    (hdA : p.N ≤ (runBytes (writesA p) (recordSize p.bl) p.N (winA (recordSize p.bl)) clensA freshFile).cp)
+    (hfB : Fits (recordSize p.bl) (2 * p.N) (winB (recordSize p.bl)) clensB 0)
+    (hdB : 2 * p.N ≤ (runBytes (recWritesB (writesB p (absRec
+        (runBytes (writesA p) (recordSize p.bl) p.N (winA (recordSize p.bl)) clensA freshFile).data (recordSize p.bl))))
+        (recordSize p.bl) (2 * p.N) (winB (recordSize p.bl)) clensB freshFile).cp) :
+    ∀ z, z < p.N →
+      absPair (runBytes (recWritesB (writesB p (absRec
+        (runBytes (writesA p) (recordSize p.bl) p.N (winA (recordSize p.bl)) clensA freshFile).data (recordSize p.bl))))
+        (recordSize p.bl) (2 * p.N) (winB (recordSize p.bl)) clensB freshFile).data (recordSize p.bl) z = specB p z :=
+  C07_fileB p hbl _ (C07_fileA p hbl clensA hfA hdA) clensB hfB hdB
+
 /-! ### cache lengths as `makeAvailableMemory` yields them (C10: every window makes progress and stays inside the file) -/
 
 /-- pass A: with `minMem ≥ 2` records the window holds at least two records and never crosses the end -/
